@@ -23,6 +23,8 @@ import (
 
 var R = stats.New("C11")
 
+func init() { gen.NoManyPairs = true }
+
 func TestMain(m *testing.M) { appsup.RaiseFdLimit(); R.Main(m) }
 
 type Case struct {
@@ -206,16 +208,15 @@ func check(c Case, o *stats.Obs) error {
 			o.Class("gate-held-for-seconds")
 		}
 	} else {
-		w := &appsup.LatencyWriter{}
+		prog := &appsup.Progress{}
+		w := &appsup.LatencyWriter{Prog: prog}
 		for _, d := range c.Delays {
 			w.Delays = append(w.Delays, time.Duration(d)*time.Microsecond)
 		}
 		done := run(c.App, input, w, c)
-		select {
-		case <-done:
-		case <-time.After(30 * time.Second):
+		if !appsup.AwaitProgress(done, prog, 30*time.Second) {
 			o.Key = c.App + "/no-return"
-			return fmt.Errorf("%s: HandleMessages did not return within 30 s", c.App)
+			return fmt.Errorf("%s: HandleMessages neither returned nor wrote anything for 30 s", c.App)
 		}
 		atReturn := w.Snapshot()
 		// quiescence: the output stops growing
